@@ -380,7 +380,16 @@ inductive Foreign
   | addCleanup (n : Nat)
   | rmCleanup (n : Nat)
   | other                     -- registries pyflyby does not use (input_transformers_post, matchers, set_hook)
+  -- steps that take pyflyby's own entries away (a reset of the list, an over-eager clean-up):
+  | clearAst                  -- del ip.ast_transformers[:]
+  | dropPfAst                 -- ip.ast_transformers = [t for t in ip.ast_transformers if <not pyflyby's>]
+  | dropPfCleanup             -- the same, in place, on the cleanup transformers
   deriving DecidableEq, Repr
+
+/-- does the step take pyflyby's own entries out of a hook list? -/
+def Foreign.removesPf : Foreign → Bool
+  | .clearAst | .dropPfAst | .dropPfCleanup => true
+  | _ => false
 
 def applyForeign : Foreign → Shell → Shell
   | .rebindAst, sh => { sh with astObj := sh.astObj + 1 }
@@ -390,6 +399,9 @@ def applyForeign : Foreign → Shell → Shell
   | .addCleanup n, sh => { sh with cleanup := sh.cleanup ++ [.ext n] }
   | .rmCleanup n, sh => { sh with cleanup := sh.cleanup.erase (.ext n) }
   | .other, sh => sh
+  | .clearAst, sh => { sh with ast := [] }
+  | .dropPfAst, sh => { sh with ast := sh.ast.filter (fun e => !e.isPf), astObj := sh.astObj + 1 }
+  | .dropPfCleanup, sh => { sh with cleanup := sh.cleanup.filter (fun e => !e.isPf) }
 
 inductive Op
   | foreign (f : Foreign)
@@ -420,6 +432,10 @@ def Op.isFresh : Op → Bool
 
 def Op.isForeign : Op → Bool
   | .foreign _ => true
+  | _ => false
+
+def Op.removesPf : Op → Bool
+  | .foreign f => f.removesPf
   | _ => false
 
 /-- neither an embedded-shell importer swap nor a third-party step -/
